@@ -428,11 +428,12 @@ struct Base
     const a_real *me, *mec, *kp, *ki, *kd;
     double base_ki; // the base integral gain keeps ki >= 0 for every consequent
 };
-static const Base BASES[4] = {
+static const Base BASES[5] = {
     {"3x3 shoulder triangles", 3, 2, m3e, m3ec, m3kp, m3ki, m3kd, 0.5},
     {"5x5 trapezoid shoulders", 5, 2, m5e, m5e, m5k, m5k, m5k, 2},
     {"3x3 wide triangles (3 active)", 3, 3, w3e, w3e, w3k, w3k, w3k, 1},
     {"7x7 of test/pid_fuzzy.h", 7, 2, m7e, m7e, m7kp, m7ki, m7kd, 3},
+    {"3x3 shoulder triangles without a kp table", 3, 2, m3e, m3ec, nullptr, m3ki, m3kd, 0.5}, // a table may be absent: that gain keeps its base value
 };
 static const unsigned OPRS[7] = {A_PID_FUZZY_EQU, A_PID_FUZZY_CAP, A_PID_FUZZY_CAP_ALGEBRA, A_PID_FUZZY_CAP_BOUNDED, A_PID_FUZZY_CUP, A_PID_FUZZY_CUP_ALGEBRA, A_PID_FUZZY_CUP_BOUNDED};
 static const char *OPRN[7] = {"equ", "cap", "cap_algebra", "cap_bounded", "cup", "cup_algebra", "cup_bounded"};
@@ -507,6 +508,7 @@ struct FuzzyH
     // smallest / largest consequent of a table
     static void range(const a_real *t, unsigned n, double &lo, double &hi)
     {
+        if (!t) { lo = hi = 0; return; } // no table: no correction
         lo = hi = (double)t[0];
         for (unsigned i = 1; i < n * n; ++i) { lo = std::min(lo, (double)t[i]); hi = std::max(hi, (double)t[i]); }
     }
@@ -690,7 +692,7 @@ int main(int argc, char **argv)
         else
         {
             size_t np = thorough ? 4 : 2;
-            for (size_t b = 0; b < 4; ++b)
+            for (size_t b = 0; b < sizeof BASES / sizeof *BASES; ++b)
             {
                 for (int opr = 0; opr < 7; ++opr)
                 {
